@@ -30,7 +30,7 @@ RULE = (
 )
 ASSUMPTIONS = ["failure reasons are the anticipated ones of the statement; undecodable input and other crashes are C16's subject"]
 
-REASONS = ["terminator", "terminator", "droplic", "dropcop", "dropboth", "bad-existing", "unrecognised", "line-unsupported", "mutex", "missing-template", "none"]
+REASONS = ["terminator", "terminator", "droplic", "dropcop", "dropboth", "cdroplic", "cdropcop", "cdropboth", "bad-existing", "unrecognised", "line-unsupported", "mutex", "missing-template", "none"]
 
 
 @st.composite
@@ -104,7 +104,7 @@ def check(ctx, c):
             args.append("--multi-line")
         if reason == "line-unsupported":
             args.append("--single-line" if c["multi"] else "--multi-line")
-        if reason in ("droplic", "dropcop", "dropboth"):
+        if reason in AN.DROPPING:
             args += ["--template", reason]
         if reason == "missing-template":
             args += ["--template", "does-not-exist"]
@@ -186,7 +186,7 @@ def check(ctx, c):
                 skipped.append(f)
                 continue
             fails = False
-            if reason in ("droplic", "dropcop", "dropboth"):
+            if reason in AN.DROPPING:
                 fails = True
             if reason == "terminator" and stl and S.has_multi(stl) and term and term in holder:
                 uses_multi = multi_flag or not S.has_single(stl)
